@@ -640,6 +640,10 @@ class ConcDomain(Domain):
                 return self.index(this, 0, e, fr)
             if mname == "back":
                 return self.index(this, len(this) - 1, e, fr)
+            if mname in ("begin", "cbegin", "data"):
+                return PtrInto(this, 0)
+            if mname in ("end", "cend"):
+                return PtrInto(this, len(this))
         if isinstance(this, Arr):
             if mname == "size":
                 return this.length
